@@ -135,7 +135,7 @@ def worker(sh):
 
 
 def run(ctx):
-    cfgs = ['prod', 'san', 'p32'] if ctx.quick else ['prod', 'san', 'p64', 'p32', 'p32-san']
+    cfgs = ['prod', 'san', 'p32'] if ctx.quick else ['prod', 'san', 'p64', 'p32', 'p32-san', 'p64-O0', 'gcc-p64']
     exes = session.build_exes({c: (c, 'wkd_drv.cpp', []) for c in cfgs})
     session.run_shards(ctx, worker, 16, exes, {'cfgs': cfgs})
     ctx.rule = ('events: sign / sign_precomputed (incl. the null-list form) with keys from delegation histories on extension lists over free slots, then verify, verify_precomputed and the '
